@@ -228,7 +228,7 @@ func mainSched() {
 		hps = append(hps, hp{"K.Sign(hedged, per-call reader)", "Q.Verify(sigDER)"}, hp{"Point.ScalarBaseMult(S1)", "K.Sign(RFC 6979 selector)"},
 			hp{"K.Sign(recoverable, SelfVerify)", "RecoverPublicKey"}, hp{"SK.Sign(Schnorr, per-call reader)", "SPK.Verify(Schnorr)"},
 			hp{"Point.MultiScalarMult([S1,S2],[P1,P2])", "Point.DoubleScalarMultBasepointVartime(S1,S2,P2)"}, hp{"NewPrivateKey(bytes) (fresh object, shared tables)", "K.ECDH(peerQ)"},
-			hp{"h2c RO(oversize DST A)", "h2c NU(oversize DST B)"}, hp{"Point.Add(P1,P2)", "K.Sign(hedged, per-call reader)"}, hp{"key accessors (Q.Bytes/CompressedBytes/Point, K.Bytes/Scalar, SPK.Bytes)", "Q.Verify(recoverable)"})
+			hp{"h2c RO(oversize DST A)", "h2c NU(oversize DST B)"}, hp{"SK.Sign(Schnorr, per-call reader)", "SK.Sign(Schnorr, another short message)"}, hp{"Point.Add(P1,P2)", "K.Sign(hedged, per-call reader)"}, hp{"key accessors (Q.Bytes/CompressedBytes/Point, K.Bytes/Scalar, SPK.Bytes)", "Q.Verify(recoverable)"})
 	}
 	for _, p := range hps {
 		if R.Expired() {
